@@ -965,6 +965,9 @@ class Context:
                 # Execute the expression to get the function object
                 vm = VM(self.memory_limit, self.time_limit)
                 vm.globals = self._globals
+                if self._current_vm is not None:
+                    # Nested code runs against the same deadline as the outer eval
+                    vm.start_time = self._current_vm.start_time
                 result = vm.run(bytecode_module)
 
                 if isinstance(result, JSFunction):
@@ -972,6 +975,8 @@ class Context:
                 else:
                     # Fallback: return a simple empty function
                     return JSFunction("anonymous", params, bytes(), {})
+            except (MemoryLimitError, TimeLimitError):
+                raise
             except Exception as e:
                 from .errors import JSError
 
@@ -1104,7 +1109,12 @@ class Context:
 
                 vm = VM(ctx.memory_limit, ctx.time_limit)
                 vm.globals = ctx._globals
+                if ctx._current_vm is not None:
+                    # Nested code runs against the same deadline as the outer eval
+                    vm.start_time = ctx._current_vm.start_time
                 return vm.run(bytecode_module)
+            except (MemoryLimitError, TimeLimitError):
+                raise
             except Exception as e:
                 from .errors import JSError
 
